@@ -272,6 +272,10 @@ class Gen:
     def leaf(self, ty, ctx_fixed=False):
         r = self.r
         if isinstance(ty, str) and ty not in ("unit", "Tr"):
+            if self.has("gconst") and r.random() < 0.15:
+                ps = [p for p, (t, _) in A.GCONSTS.items() if t == ty]
+                if ps:
+                    return {"k": "gconst", "p": r.choice(ps), "ty": ty}
             vs = self.vars_of(ty)
             c = r.random()
             if vs and c < 0.45:
